@@ -391,6 +391,51 @@ theorem lag_prev_chain (k v : Nat) (hl : (k, v) ∈ cfg.lags) (hd : (cfg.lags.ma
   unfold envLast envCens envY
   split <;> split <;> simp [Env.set, ky, ktout, kunc, hPlan]
 
+/-- a lag whose source is written by out_recode holds the value *after* that interval's out_recode ran (the lag
+    update comes after `exec(out_recode)`): the right-hand side is the out_recode program applied to the row at the
+    end of interval `j` -/
+theorem lag_after_out_recode (k v : Nat) (hl : (k, v) ∈ cfg.lags) (hd : (cfg.lags.map (·.2)).Nodup)
+    (hv : v ∉ predWrites cfg) (j : Nat) (hj : j + 1 < (simOne cfg tmax draws b).length) :
+    ∀ f ∈ ((simOne cfg tmax draws b)[j + 1]).seen,
+      f v = exec cfg.outRecode (envLast cfg tmax j (draws j) (traj cfg tmax draws (initRow cfg b) 0 j)) k := by
+  intro f hf
+  rw [lag_prev_step cfg tmax draws b k v hl hd hv j hj f hf, simOne_getElem]
+  rfl
+
+/-- the documented use of out_recode: `g[k] = g[k] + g[exposure]` keeps a running count of treated intervals; when
+    that count is lagged into `v`, the models of interval `j + 1` see in `v` the count the models of interval `j` saw
+    in `k` plus the exposure of record `j` (so a plan or model reading `v` reads the count up to and including the
+    previous interval, not one interval late) -/
+theorem lag_running_count (hs : Safe cfg) (k v : Nat) (hout : cfg.outRecode = [⟨k, .add (.var k) (.var cfg.cols.a)⟩])
+    (hl : (k, v) ∈ cfg.lags) (hd : (cfg.lags.map (·.2)).Nodup) (hv : v ∉ predWrites cfg) (hk : k ∉ predWrites cfg)
+    (j : Nat) (hj : j + 1 < (simOne cfg tmax draws b).length) :
+    ∀ f ∈ ((simOne cfg tmax draws b)[j + 1]).seen, ∀ f' ∈ ((simOne cfg tmax draws b)[j]'(by omega)).seen,
+      f v = f' k + ((simOne cfg tmax draws b)[j]'(by omega)).out cfg.cols.a := by
+  intro f hf f' hf'
+  rw [lag_after_out_recode cfg tmax draws b k v hl hd hv j hj f hf]
+  rw [simOne_getElem] at hf' ⊢
+  rw [seen_other cfg tmax j (draws j) _ k hk f' hf', out_res hs _ _ _ _ (by simp [reserved])]
+  generalize traj cfg tmax draws (initRow cfg b) 0 j = e
+  simp only [predWrites, reserved, List.mem_append, List.mem_cons, List.not_mem_nil, or_false, not_or] at hk
+  obtain ⟨⟨⟨ka, ky, ktin, ktout, kunc⟩, kin⟩, kcov⟩ := hk
+  have hCov : envCov cfg j (draws j) e k = e k := by
+    unfold envCov envIn
+    rw [runCovs_other _ _ _ _ _ (fun h => kcov ((mem_covWrites_order k cfg.covs).1 h)), exec_other _ _ _ kin,
+      Env.set_other _ _ ktin]
+  have hPlan : envPlan cfg j (draws j) e k = e k := by rw [envPlan_other _ _ _ ka, hCov]
+  have hLast : envLast cfg tmax j (draws j) e k = e k := by
+    unfold envLast envCens envY
+    split <;> split <;> simp [Env.set, ky, ktout, kunc, hPlan]
+  rw [hout]
+  simp [exec, Expr.eval, hLast]
+
+/-- 'treat while never treated': exposed in the first interval only; the models of interval 2 see count lag 1 -/
+example : ((simOne Ex.cfgCum 5 Ex.draws Ex.base).map fun r => r.out 0) = [1, 0, 0] ∧
+    (((simOne Ex.cfgCum 5 Ex.draws Ex.base)[1]'(by decide)).seen.map fun f => f 13) = [1, 1, 1, 1] := by decide
+example : Ex.cfgCum.outRecode = [⟨12, .add (.var 12) (.var Ex.cfgCum.cols.a)⟩] ∧ (12, 13) ∈ Ex.cfgCum.lags ∧
+    (Ex.cfgCum.lags.map (·.2)).Nodup ∧ 13 ∉ predWrites Ex.cfgCum ∧ 12 ∉ predWrites Ex.cfgCum :=
+  ⟨rfl, by decide, by decide, by decide, by decide⟩
+
 example : (8, 9) ∈ Ex.cfg.lags ∧ (Ex.cfg.lags.map (·.2)).Nodup ∧ 9 ∉ predWrites Ex.cfg ∧ 8 ∉ predWrites Ex.cfg ∧
     8 ∉ targets Ex.cfg.outRecode := by decide
 example : (8, 9) ∈ Ex.cfgFwd.lags ∧ (Ex.cfgFwd.lags.map (·.2)).Nodup ∧ 9 ∉ predWrites Ex.cfgFwd := by decide
